@@ -143,6 +143,31 @@ const fwWriterBase = 45
 // (it still has to be told), even ids a plain one
 const nlwWriterBase = 49
 
+// writer ids from regWriterBase on are *os.File values on REGULAR disk files in the working directory (an
+// application's log file); what arrived is read back from the file, all new bytes as one event (use them
+// where one record is written between two observations)
+const regWriterBase = 53
+
+type regState struct {
+	f   *os.File
+	off int64
+}
+
+var regFiles = map[int]*regState{}
+var regIds []int
+var regGen int
+
+func newRegWriter(id int) io.Writer {
+	regGen++
+	f, err := os.Create(fmt.Sprintf("reg-%d-%d.log", id, regGen))
+	if err != nil {
+		panic(err)
+	}
+	regFiles[id] = &regState{f: f}
+	regIds = append(regIds, id)
+	return f
+}
+
 var fwGen int
 
 func newFwWriter(id int) io.Writer {
@@ -173,6 +198,13 @@ func resetFileWriters() {
 		delete(fileSocks, id)
 	}
 	fileIds = nil
+	for _, id := range regIds {
+		regFiles[id].f.Close()
+		os.Remove(regFiles[id].f.Name())
+		delete(writerPool, id)
+		delete(regFiles, id)
+	}
+	regIds = nil
 }
 
 var fileSocks = map[int]int{} // writer id -> reading end
@@ -198,6 +230,9 @@ func newFileWriter(id int) *os.File {
 
 // writer id -> kind: 1 plain, 2 LogWriter, 3 LevelSettable LogWriter, 4 plain+LevelSettable, then repeating
 func writerKind(id int) string {
+	if id >= regWriterBase {
+		return "reg"
+	}
 	if id >= nlwWriterBase {
 		return "nlw"
 	}
@@ -235,6 +270,8 @@ func getWriter(id int) io.Writer {
 		w = &closerW{id}
 	} else {
 		switch writerKind(id) {
+		case "reg":
+			w = newRegWriter(id)
 		case "nlw":
 			if id%2 == 1 {
 				w = slog.NewLogWriter(&plainLevelW{id})
@@ -353,6 +390,14 @@ func takeAll() []wev {
 				break
 			}
 			evs = append(evs, wev{W: id, K: "w", payload: append([]byte(nil), fileBuf[:n]...)})
+		}
+	}
+	for _, id := range regIds {
+		st := regFiles[id]
+		b, err := os.ReadFile(st.f.Name())
+		if err == nil && int64(len(b)) > st.off {
+			evs = append(evs, wev{W: id, K: "w", payload: append([]byte(nil), b[st.off:]...)})
+			st.off = int64(len(b))
 		}
 	}
 	if stdio == nil {
